@@ -82,6 +82,11 @@ Definition target_in (strict : bool) (len : nat) (t : Z) : option nat :=
   else if (if strict then (Z.of_nat len <=? t)%Z else (Z.of_nat len <? t)%Z) then None
   else Some (Z.to_nat t).
 
+(* Go's fixed-width arithmetic, made explicit where the code adds attacker-controlled values:
+   int (64-bit two's complement) and uint64 additions wrap silently *)
+Definition wrap_int64 (z : Z) : Z := ((z + 9223372036854775808) mod 18446744073709551616 - 9223372036854775808)%Z.
+Definition wrap_uint64 (n : N) : N := (n mod 18446744073709551616)%N.
+
 (* ------------------------------------------------------------------ costs *)
 (* basics.DivCeil on ints *)
 Definition div_ceil (a b : Z) : Z := ((a + (b - 1)) / b)%Z.
@@ -164,7 +169,10 @@ Section Frame.
     if (n <=? 0)%Z then None
     else
       let isz := S (Z.to_nat n) in
-      let t := if (off <? 0)%Z then (Z.of_nat pc + off)%Z else (Z.of_nat pc + Z.of_nat isz + off)%Z in
+      (* "target = cx.pc + int(offset)" / "cx.pc + instrSize + int(offset)": int additions, which
+         wrap for offsets near MaxInt64; the range test below is what rejects the wrapped value *)
+      let t := if (off <? 0)%Z then wrap_int64 (Z.of_nat pc + off)
+               else wrap_int64 (Z.of_nat pc + Z.of_nat isz + off) in
       Some (target_in false (length prog) t, isz).
 
   (* switchTarget(cx, idx), defined when pc+1 < len(program) *)
@@ -204,7 +212,9 @@ Section Frame.
              if (n <=? 0)%Z then None
              else
                let pos1 := pos + Z.to_nat n in
-               if N.ltb (N.of_nat (length prog)) (N.of_nat pos1 + ilen) then None
+               (* "end := uint64(pos) + itemLen; if end > uint64(len(program)) || end < uint64(pos)" *)
+               let e := wrap_uint64 (N.of_nat pos1 + ilen) in
+               if N.ltb (N.of_nat (length prog)) e || N.ltb e (N.of_nat pos1) then None
                else byte_imm_loop prog k' (pos1 + N.to_nat ilen) (big || N.ltb max_bytes ilen) (N.eqb ilen 0)
     end.
   Definition parse_byte_imm (prog : list N) (pos : nat) : option (nat * bool * bool) :=
@@ -227,7 +237,9 @@ Section Frame.
     let '(l, n) := uvarint (skipn (S pc) prog) in
     if (n <=? 0)%Z then None
     else let pos := S pc + Z.to_nat n in
-         if N.ltb (N.of_nat (length prog)) (N.of_nat pos + l) then None else Some (pos + N.to_nat l).
+         (* "end := uint64(pos) + length; if end > uint64(len(cx.program)) || end < uint64(pos)" *)
+         let e := wrap_uint64 (N.of_nat pos + l) in
+         if N.ltb (N.of_nat (length prog)) e || N.ltb e (N.of_nat pos) then None else Some (N.to_nat e).
   Definition push_int_next (prog : list N) (pc : nat) : option nat :=
     let '(_, n) := uvarint (skipn (S pc) prog) in
     if (n <=? 0)%Z then None else Some (S pc + Z.to_nat n).
